@@ -15,7 +15,7 @@ RULE = ('one run = the real EventDispatcher.run() in a simulated thread on a sim
         'by the subscriber closing its end at a drawn moment; the reference model replays the global enqueue order '
         'assigned by the simulated queue; non-trivial = at least two lanes interleave or a channel breaks; '
         'distinct = distinct event-log digests')
-PROBES = ['multi_subscriber', 'multi_publisher', 'unsubscribe', 'unsubscribe_unknown', 'unsubscribe_repeated',
+PROBES = ['subscribe_again_same_channel', 'multi_subscriber', 'multi_publisher', 'unsubscribe', 'unsubscribe_unknown', 'unsubscribe_repeated',
           'resubscribe', 'break_at_nth_send', 'break_by_close', 'break_at_ack', 'relay_thread', 'late_publish',
           'idle_timeout_cycle', 'events_delivered', 'dispatcher_shutdown_clean']
 COMPONENTS = {
@@ -192,6 +192,11 @@ def run_one(tape: Any, cfg: Dict[str, Any], forbid: FrozenSet[str] = frozenset()
                 ops.append(('sub', do_sub))
                 for _ in range(tape.draw(3, 'subwait')):
                     ops += gap() or [('sleep', 0.0)]
+                if brk == 0 and not use_relay and tape.coin(0.2, 'sub-again'):
+                    # the same subscriber subscribes once more with the channel it already has (e.g. subscribe() called twice):
+                    # acknowledged again, and the subscription simply goes on
+                    ops.append(('sub', lambda ch=ch: (eq.subscribe(ch['sub_id'], ch['send']), w.probe('subscribe_again_same_channel'))))
+                    ops += gap()
                 if brk == 2:
                     def do_break(ch: Dict[str, Any] = ch) -> None:
                         if ch['reader'] is not None:
